@@ -180,6 +180,24 @@ def sc_oneshot_partial(rng, k, deep):
     L += ["m peerw %d 3 2" % k, "m quiesce", "m tkcount %d" % k, "m tkfree %d" % k, "m reset"]
     return L
 
+def sc_notify(rng, k, deep):
+    """tp_task_notify_handler on a pipe: the library only reports readiness / EOF / timeout, the callback reads by itself"""
+    efl = rng.choice([0, 0, 1, 2]); tmode = rng.choice(["none", "none", "generous", "before"])
+    tmo = {"none": 0, "generous": 60000, "before": 25}[tmode]
+    n = rng.randint(0, 6); frs = cut(rng, n, rng.randint(1, 3))
+    if efl == 1: P = {"P": rng.choice(["gN", "N", "gsN"]), "E": rng.choice(["gE", "E"]), "T": "N", "X": "X", "F": "N"}
+    else: P = {"P": rng.choice(["gC", "gC", "gC,gsN", "gdN"]), "E": rng.choice(["gsE", "sE", "gC,gsE"]), "T": rng.choice(["C", "C,sN", "sN"]), "X": "sX", "F": "sN"}
+    L = ["m tknew %d 2 4 0 4 0" % k] + pol_lines(k, P)
+    L.append("m tkcap %d %s" % (k, ",".join(str(rng.choice([0, 1, 2, 3])) for _ in range(rng.randint(1, 3)))))
+    L += w0(["tkcreate %d 0 2 0" % k, "tkstart %d %d 0 %d %d 0" % (k, rng.choice([0, 1]), efl, tmo)])
+    for i, (a, c) in enumerate(frs):
+        if tmode == "before" and i == 0: L.append("m tkwait %d 1 1 10000" % k)
+        L.append("m peerw %d %d %d" % (k, a, c))
+        if rng.random() < 0.6: L.append("m quiesce")
+    if rng.random() < 0.7: L.append("m peerclose %d" % k)
+    L += ["m quiesce", "m tkcount %d" % k, "m tkfree %d" % k, "m reset"]
+    return L
+
 def sc_trickle(rng, k, deep):
     """bytes arrive one event at a time into a larger window: the library accumulates across events (tot_transfered_size)
     and reports the sum with the next condition (window full, EOF, timeout)"""
@@ -199,7 +217,7 @@ def sc_trickle(rng, k, deep):
     L += ["m quiesce", "m tkcount %d" % k, "m tkfree %d" % k, "m reset"]
     return L
 
-KINDS = [("trickle", sc_trickle, 3), ("stream-read", sc_stream_read, 10), ("stream-write", sc_stream_write, 4), ("file", sc_file, 3),
+KINDS = [("trickle", sc_trickle, 3), ("notify-pipe", sc_notify, 3), ("stream-read", sc_stream_read, 10), ("stream-write", sc_stream_write, 4), ("file", sc_file, 3),
          ("errpath", sc_errpath, 2), ("dispatch-eof", sc_dispatch_eof, 1), ("oneshot-partial", sc_oneshot_partial, 1)]
 
 def gen_batch(rng, count, deep, perturb=True):
@@ -217,7 +235,7 @@ def batch_text(tasks, perturb):
 
 # ------------------------------------------------------------------ validation
 KEEP = {"tknew", "tkfill", "tkcreate", "call.start", "ret.start", "call.restart", "ret.restart", "call.stop", "ret.stop", "call.enable",
-        "ret.enable", "call.destroy", "ret.destroy", "ev.post", "sys.settime", "sys.fail", "loop.cb", "sys.io", "taskcb.begin", "cb.rewind",
+        "ret.enable", "call.destroy", "ret.destroy", "ev.post", "sys.settime", "sys.fail", "loop.cb", "sys.io", "taskcb.begin", "cb.rewind", "cb.read",
         "taskcb.end", "loop.turn", "peer.write", "peer.close", "peer.read", "waited", "quiesce", "tkcount", "Reset"}
 
 def segments(evs):
@@ -400,4 +418,4 @@ def run(ctx):
     ctx.assumptions += ["epoll back end on Linux; the kernel's readiness/timer expiry is environment",
                         "callbacks obey the documented task contract (no CONTINUE from one-shot tasks; tasks without TP_F_DISPATCH stop or disable themselves before returning another code)",
                         "stop/enable/restart/destroy are issued on the task's own pool thread (or after quiescence at tear-down), as the statement says",
-                        "not exercised: tp_task_pkt_rcvr_handler, tp_task_accept_handler, tp_task_connect(_ex)_handler, tp_task_notify_handler, kqueue back end, SO_RCVLOWAT"]
+                        "not exercised: tp_task_pkt_rcvr_handler, tp_task_accept_handler, tp_task_connect(_ex)_handler, kqueue back end, SO_RCVLOWAT"]
